@@ -278,6 +278,52 @@ def _scoped(tree):
   return out
 
 
+def _config_base_shape(cls):
+  """The REAL serialisation of the `_Config` base class, read from its AST (the config classes have no `get_config`
+  of their own): `__init__(self, kwargs)` must end in `self.__dict__ = kwargs` and `get_config` must start from
+  `config = copy.deepcopy(self.__dict__)` and `return config`. Returns (ok, popped): `popped` = the literal keys
+  removed by `kwargs.pop(k)` / `config.pop(k)` in either method — every OTHER entry of `locals()` is a key of the config.
+  Any statement of another shape (a new assignment to `config[...]` outside the nested-config lists, a `del`, an
+  early return) makes `ok` False and the rows of all config classes fail `RowOK` (normaliser 'base_shape_changed')."""
+  fns = {x.name: x for x in cls.body if isinstance(x, ast.FunctionDef)}
+  ok, popped = True, set()
+  if "__init__" not in fns or "get_config" not in fns:
+    return False, popped
+
+  def pops(fn, var):
+    out = set()
+    for n in ast.walk(fn):
+      if isinstance(n, ast.Call) and isinstance(n.func, ast.Attribute) and n.func.attr == "pop" and \
+          isinstance(n.func.value, ast.Name) and n.func.value.id == var and n.args and isinstance(n.args[0], ast.Constant):
+        out.add(n.args[0].value)
+    return out
+  init, gc = fns["__init__"], fns["get_config"]
+  popped |= pops(init, "kwargs") | pops(gc, "config")
+  last = init.body[-1]
+  if not (isinstance(last, ast.Assign) and _norm_ws(ast.unparse(last)) == "self.__dict__ = kwargs"):
+    ok = False
+  for st in init.body[:-1]:
+    if not (isinstance(st, ast.If) and all(isinstance(b, ast.Expr) and "kwargs.pop(" in ast.unparse(b) for b in st.body)
+            and not st.orelse) and not (isinstance(st, ast.Expr) and isinstance(st.value, ast.Constant)):
+      ok = False
+  body = [st for st in gc.body if not (isinstance(st, ast.Expr) and isinstance(st.value, ast.Constant))]
+  if not body or _norm_ws(ast.unparse(body[0])) != "config = copy.deepcopy(self.__dict__)" or \
+      _norm_ws(ast.unparse(body[-1])) != "return config":
+    ok = False
+  for st in body[1:-1]:
+    if not (isinstance(st, ast.If) and not st.orelse):
+      ok = False
+      continue
+    for b in st.body:
+      src = _norm_ws(ast.unparse(b))
+      is_pop = isinstance(b, ast.Expr) and src.startswith("config.pop(")
+      is_nested = isinstance(b, ast.Assign) and isinstance(b.targets[0], ast.Subscript) and \
+          ast.unparse(b.targets[0].value) == "config" and "serialize_keras_object" in src
+      if not (is_pop or is_nested):
+        ok = False
+  return ok, popped
+
+
 def extract():
   d = repo_dir()
   trees = {f: ast.parse(open(os.path.join(d, f)).read()) for f in FILES}
@@ -288,7 +334,9 @@ def extract():
     classes = {n.name: n for n in tree.body if isinstance(n, ast.ClassDef)}
     scoped = _scoped(tree)
     nested_ser, nested_deser = set(), set()
+    base_ok, base_popped = True, set()
     if "_Config" in classes:
+      base_ok, base_popped = _config_base_shape(classes["_Config"])
       for fn in classes["_Config"].body:
         if isinstance(fn, ast.FunctionDef) and fn.name in ("get_config", "deserialize_nested_configs"):
           tgt = nested_ser if fn.name == "get_config" else nested_deser
@@ -310,7 +358,11 @@ def extract():
         ok_locals = len(body) >= 1 and _norm_ws(ast.unparse(body[0])) == "super(%s, self).__init__(locals())" % name \
             and len(body) == 1
         for p in pnames:
-          if not ok_locals:
+          if p in base_popped:
+            continue      # removed by `_Config.__init__` / `_Config.get_config`: a parameter that is NOT a key
+          if not base_ok:
+            norm, reader = "base_shape_changed", "attr"
+          elif not ok_locals:
             norm, reader = "not_locals", "attr"
           elif p in nested_ser and p in nested_deser:
             norm, reader = "nested_config_list", "serialize_keras_object_list"
